@@ -102,7 +102,11 @@ def classifyBlock (specs : List Spec) (y : Out) (g : List (Res (CV × BT))) : St
     | _, _, _ => "block-interplay"
   let ys := showOut y
   let gs := showOut (outGo g)
-  if ys == gs || (ys == "reject|crash" && gs == "reject") then "-"
+  if ys == gs then "-"
+  else if ys == "reject|crash" && gs == "reject" then
+    -- rejected by the first walk and by Go: in the domain, unless some spec is one on which a walk panics
+    (let c := go 0 stages resolved g
+     if c == "bool-shift-panic" || c == "node-panic" then c else "-")
   else match y with
     | .unm w => "unmodelled:" ++ w
     | _ => go 0 stages resolved g
